@@ -277,6 +277,415 @@ Example C09_ex_path :
   end.
 Proof. vm_compute. split; reflexivity. Qed.
 
+(* ------------------------------------------------------------------------
+   NON-VACUITY (audit): every theorem of this file APPLIED to concrete rules with parameters (so Coq
+   checks that what is discharged are the theorems' own hypotheses), each followed by the value the
+   model really computes on the instance and, where cheap, a near miss on which the conclusion or a
+   hypothesis fails.  "True tables" of the parents are written independently of the model (other
+   entry order, entries split) so that teq is not a syntactic identity. *)
+
+(* proves  teq a b  for explicit tables (same multiset of (key, value) up to order/merging) *)
+Ltac teq_explicit :=
+  let p := fresh "p" in intros p; cbn -[params_eqb Z.add];
+  repeat match goal with |- context [params_eqb ?a ?b] => destruct (params_eqb a b) end; lia.
+(* proves a statement  forall k v, In (k, v) t -> P k v  for an explicit table t *)
+Ltac by_entries :=
+  let k := fresh "k" in let v := fresh "v" in let H := fresh "H" in
+  intros k v H; cbn in H;
+  repeat (destruct H as [H|H]; [inversion H; subst; clear H; try reflexivity; try lia|]);
+  try contradiction.
+
+(* ---- parameter maps ---- *)
+(* child statistic 0 feeds the parent positions 1 and 2 (two parent statistics mapped onto one child
+   statistic), child statistic 1 feeds position 0, child statistic 2 is untracked *)
+Example C09_param_maps_agree_nonvacuous :
+  du_param_map [[1%nat; 2%nat]; [0%nat]; []] 3 [5; 7; 9]
+  = Ok (sum_param_map [[1%nat; 2%nat]; [0%nat]; []] 3 [5; 7; 9]).
+Proof.
+  apply (C09_param_maps_agree [[1%nat; 2%nat]; [0%nat]; []] 3 [5; 7; 9] eq_refl).
+  simpl. repeat constructor; simpl; intuition discriminate.
+Qed.
+Example C09_param_maps_agree_value :
+  sum_param_map [[1%nat; 2%nat]; [0%nat]; []] 3 [5; 7; 9] = [7; 5; 5] /\
+  (* without NoDup the two variants differ (cf. C09_ex_merge) *)
+  du_param_map [[0%nat]; [0%nat]] 1 [3; 4] <> Ok (sum_param_map [[0%nat]; [0%nat]] 1 [3; 4]).
+Proof. split; [reflexivity|discriminate]. Qed.
+
+(* ---- a union rule with three children; parent statistics (p0, p1) ----
+   child A: one statistic, dict {p0 : a}              (drops p1)       position map [[0]]
+   child B: two statistics, dict {p1 : b0, p0 : b1}   (swapped)        position map [[1]; [0]]
+   child C: no statistic, dict {}                     (drops both)     position map []            *)
+Definition pmA : list (list nat) := [[0%nat]].
+Definition pmB : list (list nat) := [[1%nat]; [0%nat]].
+Definition pmC : list (list nat) := [].
+Definition fA := sum_param_map pmA 2.
+Definition fB := sum_param_map pmB 2.
+Definition fC := sum_param_map pmC 2.
+Definition tA : terms := [([3], 4); ([7], 1)].
+Definition tB : terms := [([5; 7], 2); ([1; 1], 3)].
+Definition tC : terms := [([], 6)].
+(* the parent's true table, written independently (other order, one entry split in two) *)
+Definition tP : terms := [([0; 0], 6); ([7; 5], 2); ([3; 0], 1); ([1; 1], 3); ([7; 0], 1); ([3; 0], 3)].
+
+Example C09_ex_built_maps :
+  child_pos_map [0; 1] [20] [(0, 20)] = Ok pmA /\
+  child_pos_map [0; 1] [10; 11] [(1, 10); (0, 11)] = Ok pmB /\
+  child_pos_map [0; 1] [] [] = Ok pmC /\
+  parent_pos_map [0; 1] [10; 11] [(1, 10); (0, 11)] = Ok pmB.
+Proof. repeat split; reflexivity. Qed.
+
+Lemma u3_table : union_table [fA; fB; fC] [tA; tB; tC]
+                 = [([3; 0], 4); ([7; 0], 1); ([7; 5], 2); ([1; 1], 3); ([0; 0], 6)].
+Proof. vm_compute. reflexivity. Qed.
+Lemma u3_genuine : union_genuine [fA; fB; fC] [tA; tB; tC] tP.
+Proof. unfold union_genuine. rewrite u3_table. unfold tP. teq_explicit. Qed.
+Lemma u3_maps : MapsOk [du_param_map pmA 2; du_param_map pmB 2; du_param_map pmC 2] [fA; fB; fC] [tA; tB; tC].
+Proof. repeat constructor; by_entries. Qed.
+
+(* covers C09_union *)
+Example C09_union_nonvacuous :
+  exists r, union_get_terms [du_param_map pmA 2; du_param_map pmB 2; du_param_map pmC 2] [tA; tB; tC] = Ok r /\
+            teq r tP.
+Proof.
+  exact (C09_union [du_param_map pmA 2; du_param_map pmB 2; du_param_map pmC 2] [fA; fB; fC]
+           [tA; tB; tC] tP u3_maps u3_genuine).
+Qed.
+Example C09_union_value :
+  union_get_terms [du_param_map pmA 2; du_param_map pmB 2; du_param_map pmC 2] [tA; tB; tC]
+  = Ok [([3; 0], 4); ([7; 0], 1); ([7; 5], 2); ([1; 1], 3); ([0; 0], 6)] /\
+  tnorm tP = [([0; 0], 6); ([1; 1], 3); ([3; 0], 4); ([7; 0], 1); ([7; 5], 2)].
+Proof. split; vm_compute; reflexivity. Qed.
+
+(* ---- product  a x B : a an atom of size 1 carrying statistic value 1, B = the binary words of
+   length <= 2 by number of b's (a finite class); both children keep the parent's statistic ---- *)
+Definition pm1 : list (list nat) := [[0%nat]].
+Definition f1 := sum_param_map pm1 1.
+Definition tabAtom (m : Z) : terms := if m =? 1 then [([1], 1)] else [].
+Definition tabWords (m : Z) : terms :=
+  if m =? 0 then [([0], 1)] else if m =? 1 then [([0], 1); ([1], 1)]
+  else if m =? 2 then [([0], 1); ([1], 2); ([2], 1)] else [].
+(* the parent's true table at size 3, written independently *)
+Definition tProd3 : terms := [([3], 1); ([2], 1); ([1], 1); ([2], 1)].
+
+Lemma prod_vanish : Vanish [tabAtom; tabWords] [1; 0] [Some 1; None].
+Proof.
+  constructor.
+  - intros m Hm. unfold tabAtom. destruct (Z.eqb_spec m 1) as [->|_]; [|intros k v []].
+    exfalso. destruct Hm as [Hm|Hm]; [lia|apply Hm; simpl; lia].
+  - constructor; [|constructor]. intros m Hm. destruct Hm as [Hm|Hm]; [|exfalso; apply Hm; exact I].
+    unfold tabWords. destruct (Z.eqb_spec m 0); [lia|]. destruct (Z.eqb_spec m 1); [lia|].
+    destruct (Z.eqb_spec m 2); [lia|]. intros k v [].
+Qed.
+Lemma prod_full_table :
+  product_table [f1; f1] (zeros (zlen [tabAtom; tabWords])) (nones (zlen [tabAtom; tabWords]))
+                [tabAtom; tabWords] 3 = [([1], 1); ([2], 2); ([3], 1)].
+Proof. vm_compute. reflexivity. Qed.
+Lemma prod_genuine : product_genuine [f1; f1] [tabAtom; tabWords] tProd3 3.
+Proof. unfold product_genuine. rewrite prod_full_table. unfold tProd3. teq_explicit. Qed.
+
+(* covers C09_product; the pruned enumeration visits ONE composition instead of four *)
+Example C09_product_nonvacuous :
+  teq (product_get_terms [f1; f1] [1; 0] [Some 1; None] [tabAtom; tabWords] 3) tProd3.
+Proof.
+  apply (C09_product [f1; f1] [1; 0] [Some 1; None] [tabAtom; tabWords] tProd3 3);
+    [vm_compute; discriminate|repeat constructor; lia|exact prod_vanish|exact prod_genuine].
+Qed.
+Example C09_product_value :
+  product_get_terms [f1; f1] [1; 0] [Some 1; None] [tabAtom; tabWords] 3 = [([1], 1); ([2], 2); ([3], 1)] /\
+  compositions 3 2 [1; 0] [Some 1; None] = [[1; 2]] /\
+  compositions 3 2 [0; 0] [None; None] = [[0; 3]; [1; 2]; [2; 1]; [3; 0]] /\
+  (* the contract matters: were the atom's table non-zero at size 2, pruning would lose objects *)
+  tnorm (product_table [f1; f1] [0; 0] [None; None] [(fun m => if m =? 2 then [([1], 1)] else tabAtom m); tabWords] 3)
+  <> tnorm (product_get_terms [f1; f1] [1; 0] [Some 1; None] [(fun m => if m =? 2 then [([1], 1)] else tabAtom m); tabWords] 3).
+Proof. split; [vm_compute; reflexivity|]. split; [vm_compute; reflexivity|]. split; [vm_compute; reflexivity|]. vm_compute. discriminate. Qed.
+
+(* ---- complement: the reverse of the three-child union above w.r.t. its MIDDLE child B ----
+   parent map g : parent coordinates -> B's coordinates (position map pmB again: a swap) *)
+Lemma compl_genuine : union_genuine ([fA] ++ fB :: [fC]) ([tA] ++ tB :: [tC]) tP.
+Proof. exact u3_genuine. Qed.
+Lemma compl_ppm_ok : maps_ok (du_param_map pmB 2) fB (filter (fun e : entry => negb (snd e =? 0)) tP).
+Proof. by_entries. Qed.
+Lemma compl_siblings_ok :
+  CMapsOk (du_param_map pmB 2) [du_param_map pmA 2; du_param_map pmC 2]
+          (map (fun f k => fB (f k)) ([fA] ++ [fC])) ([tA] ++ [tC]).
+Proof. repeat constructor; by_entries. Qed.
+Example C09_complement_nonvacuous :
+  exists r, complement_get_terms (du_param_map pmB 2) [du_param_map pmA 2; du_param_map pmC 2] tP ([tA] ++ [tC]) = Ok r /\
+            teq r tB.
+Proof.
+  apply (C09_complement (du_param_map pmB 2) fB [du_param_map pmA 2; du_param_map pmC 2]
+           [fA] fB [fC] tP tB [tA] [tC] eq_refl compl_genuine).
+  - by_entries.
+  - repeat constructor; by_entries.
+  - exact compl_ppm_ok.
+  - exact compl_siblings_ok.
+  - by_entries.
+Qed.
+Example C09_complement_value :
+  match complement_get_terms (du_param_map pmB 2) [du_param_map pmA 2; du_param_map pmC 2] tP [tA; tC] with
+  | Ok r => tnorm r = [([1; 1], 3); ([5; 7], 2)] | Err _ => False end.
+Proof. vm_compute. reflexivity. Qed.
+
+(* ---- quotient, parameter-free: the product  a x W x C  reversed w.r.t. W ----
+   a: atom of size 1;  W: 2^m objects of size m (all m >= 0);  C: m objects of size m (m >= 1).
+   The parent's true table is the full convolution (that IS genuineness of the product rule). *)
+Definition f0 : params -> params := sum_param_map [] 0.
+Definition qcs : list (Z * bool) := [(1, true); (0, false); (1, false)].
+Definition qA (m : Z) : terms := if m =? 1 then [([], 1)] else [].
+Definition qW (m : Z) : terms := if m <? 0 then [] else [([], 2 ^ m)].
+Definition qC (m : Z) : terms := if m <? 1 then [] else [([], m)].
+Definition qtabs : list (Z -> terms) := [qA; qW; qC].
+Definition qTP (m : Z) : terms := product_table [f0; f0; f0] (zeros 3) (nones 3) qtabs m.
+
+Lemma q_const_nil : Forall const_nil [f0; f0; f0].
+Proof. repeat constructor; intros k; reflexivity. Qed.
+Lemma q_vanish : Vanish qtabs (quotient_min_sizes qcs) (quotient_max_sizes qcs).
+Proof.
+  constructor; [|constructor; [|constructor; [|constructor]]]; intros m Hm; simpl in Hm.
+  - unfold qA. destruct (Z.eqb_spec m 1) as [->|_]; [|intros k v []].
+    exfalso. destruct Hm as [Hm|Hm]; [lia|apply Hm; lia].
+  - destruct Hm as [Hm|Hm]; [|exfalso; apply Hm; exact I]. unfold qW.
+    destruct (Z.ltb_spec m 0); [intros k v []|lia].
+  - destruct Hm as [Hm|Hm]; [|exfalso; apply Hm; exact I]. unfold qC.
+    destruct (Z.ltb_spec m 1); [intros k v []|lia].
+Qed.
+Lemma q_nonneg : Forall (fun tab : Z -> terms => forall m, nonneg (tab m)) qtabs.
+Proof.
+  repeat constructor; intros m k v H.
+  - unfold qA in H. destruct (m =? 1); [|destruct H]. destruct H as [H|[]]. inversion H. lia.
+  - unfold qW in H. destruct (Z.ltb_spec m 0); [destruct H|]. destruct H as [H|[]]. inversion H.
+    apply Z.pow_nonneg. lia.
+  - unfold qC in H. destruct (Z.ltb_spec m 1); [destruct H|]. destruct H as [H|[]]. inversion H. lia.
+Qed.
+
+(* covers C09_quotient_parameter_free: levels 0..4 of the reverse rule are computed without an
+   exception and hold 2^m *)
+Example C09_quotient_parameter_free_nonvacuous :
+  exists tl : list terms,
+    levels (qstep [f0; f0; f0] (q_param_map [] 0) qcs 1 qTP qtabs) 4 = (tl, None) /\
+    length tl = Z.to_nat (4 + 1) /\
+    forall m, (m < length tl)%nat ->
+      nokeys (nth m tl []) /\ tsum (nth m tl []) = tsum (nth 1 qtabs (fun _ => []) (Z.of_nat m)).
+Proof.
+  apply (C09_quotient_parameter_free [f0; f0; f0] (q_param_map [] 0) qcs 1 qTP qtabs 4).
+  - simpl; lia.
+  - simpl; lia.
+  - reflexivity.
+  - exact q_const_nil.
+  - reflexivity.
+  - repeat constructor; simpl; lia.
+  - exact q_vanish.
+  - exact q_nonneg.
+  - intros m. apply product_table_nokeys. exact q_const_nil.
+  - intros m. unfold product_genuine, qTP. apply teq_refl.
+  - vm_compute. discriminate.
+  - lia.
+Qed.
+Example C09_quotient_parameter_free_value :
+  levels (qstep [f0; f0; f0] (q_param_map [] 0) qcs 1 qTP qtabs) 4
+  = ([[([], 1)]; [([], 2)]; [([], 4)]; [([], 8)]; [([], 16)]], None) /\
+  map (fun m => tnorm (qTP m)) [0; 1; 2; 3; 4] = [[]; []; [([], 1)]; [([], 4)]; [([], 11)]].
+Proof. split; vm_compute; reflexivity. Qed.
+
+(* ---- equivalence rules ---- *)
+(* the union rule above when only its middle child B has objects (A's table holds an explicit 0) *)
+Definition tPB : terms := [([1; 1], 3); ([7; 5], 2)].
+Lemma eq_genuine : union_genuine [fA; fB; fC] [[([4], 0)]; tB; []] tPB.
+Proof.
+  unfold union_genuine.
+  assert (E : union_table [fA; fB; fC] [[([4], 0)]; tB; []] = [([4; 0], 0); ([7; 5], 2); ([1; 1], 3)])
+    by (vm_compute; reflexivity).
+  rewrite E. unfold tPB. teq_explicit.
+Qed.
+Example C09_equivalence_nonvacuous :
+  union_genuine [nth 1 [fA; fB; fC] (fun k => k)] [nth 1 [[([4], 0)]; tB; []] []] tPB.
+Proof.
+  apply (C09_equivalence 1 [fA; fB; fC] [[([4], 0)]; tB; []] tPB); [simpl; lia|reflexivity| |exact eq_genuine].
+  intros j Hj Hlt. destruct j as [|[|[|j]]]; simpl in Hlt; try lia; simpl; by_entries.
+Qed.
+(* ... and then C09_union applies to the rebuilt one-child rule *)
+Example C09_equivalence_then_union :
+  exists r, union_get_terms [du_param_map pmB 2] [tB] = Ok r /\ teq r tPB.
+Proof.
+  apply (C09_union [du_param_map pmB 2] [fB] [tB] tPB); [repeat constructor; by_entries|].
+  exact C09_equivalence_nonvacuous.
+Qed.
+
+Definition eq_kids : list kid :=
+  [mkKid [20] [(0, 20)] 0 false true; mkKid [10; 11] [(1, 10); (0, 11)] 0 false false;
+   mkKid [] [] 0 false true].
+Example C09_equivalence_child_index_nonvacuous : first_nonempty eq_kids = Some 1%nat.
+Proof.
+  apply (C09_equivalence_child_index eq_kids 1); [simpl; lia|reflexivity|].
+  intros j Hj Hlt. destruct j as [|[|[|j]]]; simpl in Hlt; try lia; reflexivity.
+Qed.
+Example C09_equivalence_child_index_discriminates :
+  first_nonempty [mkKid [] [] 0 false false; mkKid [] [] 0 false false] = Some 0%nat /\
+  first_nonempty [mkKid [] [] 0 false true] = None.
+Proof. split; reflexivity. Qed.
+
+(* the reverse of the equivalence rule parent -> B *)
+Example C09_equivalence_reverse_nonvacuous :
+  exists r, complement_get_terms (du_param_map pmB 2) [] tPB [] = Ok r /\ teq r tB.
+Proof.
+  apply (C09_equivalence_reverse (du_param_map pmB 2) fB fB tPB tB).
+  - exact C09_equivalence_nonvacuous.
+  - by_entries.
+  - by_entries.
+  - by_entries.
+Qed.
+Example C09_equivalence_reverse_value :
+  complement_get_terms (du_param_map pmB 2) [] tPB [] = Ok [([1; 1], 3); ([5; 7], 2)].
+Proof. vm_compute. reflexivity. Qed.
+
+(* ---- dictionaries ---- *)
+(* parent statistics 0..3, child statistics 10..12; parent 1 and 2 are BOTH mapped onto child 10
+   (merge), parent 3 is dropped (no key), child 12 is untracked *)
+Definition dm_d : dict := [(1, 10); (0, 11); (2, 10)].
+Lemma dm_wf : wf_dict [0; 1; 2; 3] [10; 11; 12] dm_d.
+Proof.
+  split; [repeat constructor; simpl; intuition discriminate|].
+  split; [repeat constructor; simpl; intuition discriminate|].
+  split; [repeat constructor; simpl; intuition discriminate|].
+  intros a b H. simpl in H. repeat (destruct H as [H|H]; [inversion H; subst; simpl; tauto|]). contradiction.
+Qed.
+Example C09_dictionary_maps_nonvacuous :
+  exists pm, child_pos_map [0; 1; 2; 3] [10; 11; 12] dm_d = Ok pm /\
+             du_param_map pm (length [0; 1; 2; 3]) [5; 7; 9] = Ok (dict_sem [0; 1; 2; 3] [10; 11; 12] dm_d [5; 7; 9]) /\
+             sum_param_map pm (length [0; 1; 2; 3]) [5; 7; 9] = dict_sem [0; 1; 2; 3] [10; 11; 12] dm_d [5; 7; 9].
+Proof. exact (C09_dictionary_maps [0; 1; 2; 3] [10; 11; 12] dm_d [5; 7; 9] dm_wf eq_refl). Qed.
+Example C09_dictionary_maps_value :
+  child_pos_map [0; 1; 2; 3] [10; 11; 12] dm_d = Ok [[1%nat; 2%nat]; [0%nat]; []] /\
+  dict_sem [0; 1; 2; 3] [10; 11; 12] dm_d [5; 7; 9] = [7; 5; 5; 0] /\
+  (* a key that is not a parent statistic breaks wf_dict, and the code raises KeyError *)
+  child_pos_map [0; 1] [10] [(4, 10)] = Err E_KEY.
+Proof. repeat split; reflexivity. Qed.
+
+(* the flipped child's dictionary: injective, parent statistic 2 dropped *)
+Definition cp_d : dict := [(1, 10); (0, 11)].
+Lemma cp_nodups : NoDup [0; 1; 2] /\ NoDup [10; 11] /\ NoDup (map fst cp_d) /\ NoDup (map snd cp_d).
+Proof. repeat split; repeat constructor; simpl; intuition discriminate. Qed.
+Example C09_complement_parent_map_nonvacuous :
+  exists pm, parent_pos_map [0; 1; 2] [10; 11] cp_d = Ok pm /\
+             du_param_map pm (length [10; 11]) [3; 4; 5] = Ok (dict_sem [10; 11] [0; 1; 2] (inv_dict cp_d) [3; 4; 5]).
+Proof.
+  destruct cp_nodups as (H1 & H2 & H3 & H4).
+  apply (C09_complement_parent_map [0; 1; 2] [10; 11] cp_d [3; 4; 5] H1 H2 H3 H4); [|reflexivity].
+  intros a b H. simpl in H. repeat (destruct H as [H|H]; [inversion H; subst; simpl; tauto|]). contradiction.
+Qed.
+Example C09_complement_parent_map_value :
+  parent_pos_map [0; 1; 2] [10; 11] cp_d = Ok [[1%nat]; [0%nat]; []] /\
+  dict_sem [10; 11] [0; 1; 2] (inv_dict cp_d) [3; 4; 5] = [4; 3] /\
+  (* with two parent statistics merged onto one child statistic NoDup (map snd d) fails and the
+     code asserts on unequal values *)
+  (match parent_pos_map [0; 1] [10] [(0, 10); (1, 10)] with
+   | Ok pm => du_param_map pm 1 [3; 4] = Err E_ASSERT | Err _ => False end).
+Proof. repeat split; reflexivity. Qed.
+
+Example C09_complement_round_trip_nonvacuous :
+  dict_sem [10; 11] [0; 1; 2] (inv_dict cp_d) (dict_sem [0; 1; 2] [10; 11] cp_d [5; 7]) = [5; 7].
+Proof.
+  destruct cp_nodups as (H1 & H2 & H3 & H4).
+  apply (C09_complement_round_trip [0; 1; 2] [10; 11] cp_d [5; 7] H1 H2 H3 H4); [| |reflexivity].
+  - intros a b H. simpl in H. repeat (destruct H as [H|H]; [inversion H; subst; simpl; tauto|]). contradiction.
+  - intros cv H. simpl in H. repeat (destruct H as [H|H]; [subst; simpl; tauto|]). contradiction.
+Qed.
+Example C09_complement_round_trip_value :
+  dict_sem [0; 1; 2] [10; 11] cp_d [5; 7] = [7; 5; 0] /\
+  (* an untracked child statistic (12) is lost on the way: the hypothesis "every child statistic is
+     a value of d" is needed *)
+  dict_sem [10; 11; 12] [0; 1; 2] (inv_dict cp_d) (dict_sem [0; 1; 2] [10; 11; 12] cp_d [5; 7; 9]) = [5; 7; 0].
+Proof. split; reflexivity. Qed.
+
+(* ---- equivalence paths ---- *)
+(* class X0 (statistics 0,1) --{0:11, 1:10}--> X1 (10,11) --{10:21, 11:20}--> X2 (20,21,22);
+   X2 has an untracked statistic 22, so two of its entries collapse in X1 *)
+Definition pa_T2 : terms := [([5; 7; 1], 2); ([5; 7; 2], 1); ([1; 1; 0], 3)].
+Definition pa_T1 : terms := [([1; 1], 3); ([7; 5], 3)].
+Definition pa_T0 : terms := [([5; 7], 3); ([1; 1], 3)].
+Definition pa_d1 : dict := [(0, 11); (1, 10)].
+Definition pa_d2 : dict := [(10, 21); (11, 20)].
+Definition pa_steps : list (list Z * dict * terms) := [([10; 11], pa_d1, pa_T1); ([20; 21; 22], pa_d2, pa_T2)].
+Lemma pa_chain : chain_ok [0; 1] pa_T0 pa_steps.
+Proof.
+  constructor.
+  - repeat constructor; simpl; intuition discriminate.
+  - intros a b H. simpl in H. repeat (destruct H as [H|H]; [inversion H; subst; simpl; tauto|]). contradiction.
+  - assert (E : rekey (dict_sem [0; 1] [10; 11] pa_d1) pa_T1 = [([1; 1], 3); ([5; 7], 3)]) by (vm_compute; reflexivity).
+    rewrite E. unfold pa_T0. teq_explicit.
+  - constructor.
+    + repeat constructor; simpl; intuition discriminate.
+    + intros a b H. simpl in H. repeat (destruct H as [H|H]; [inversion H; subst; simpl; tauto|]). contradiction.
+    + assert (E : rekey (dict_sem [10; 11] [20; 21; 22] pa_d2) pa_T2 = [([7; 5], 2); ([7; 5], 1); ([1; 1], 3)])
+        by (vm_compute; reflexivity).
+      rewrite E. unfold pa_T1. teq_explicit.
+    + constructor.
+Qed.
+Example C09_path_nonvacuous :
+  exists pm r, child_pos_map [0; 1] [20; 21; 22] [(0, 20); (1, 21)] = Ok pm /\
+               union_get_terms [du_param_map pm (length [0; 1])] [pa_T2] = Ok r /\ teq r pa_T0.
+Proof.
+  refine (C09_path [0; 1] pa_T0 pa_steps _ _ pa_chain _ _).
+  - repeat constructor; simpl; intuition discriminate.
+  - by_entries.
+  - split; [repeat constructor; simpl; intuition discriminate|].
+    split; [repeat constructor; simpl; intuition discriminate|].
+    split; [repeat constructor; simpl; intuition discriminate|].
+    intros a b H. cbn in H. repeat (destruct H as [H|H]; [inversion H; subst; simpl; tauto|]). contradiction.
+  - by_entries.
+Qed.
+Example C09_path_value :
+  fold_left dict_compose [pa_d1; pa_d2] (id_dict [0; 1]) = [(0, 20); (1, 21)] /\
+  child_pos_map [0; 1] [20; 21; 22] [(0, 20); (1, 21)] = Ok [[0%nat]; [1%nat]; []] /\
+  union_get_terms [du_param_map [[0%nat]; [1%nat]; []] 2] [pa_T2] = Ok [([5; 7], 2); ([5; 7], 1); ([1; 1], 3)].
+Proof. repeat split; vm_compute; reflexivity. Qed.
+
+(* a reverse step: the union rule with parent statistics (20,21) and child X1 (10,11), dictionary
+   {20:11, 21:10}, walked from the child to the parent *)
+Definition rl_d : dict := [(20, 11); (21, 10)].
+Definition rl_TC : terms := [([5; 7], 3); ([2; 2], 1)].
+Definition rl_TP : terms := [([2; 2], 1); ([7; 5], 2); ([7; 5], 1)].
+Example C09_path_reverse_link_nonvacuous :
+  teq rl_TC (rekey (dict_sem [10; 11] [20; 21] (inv_dict rl_d)) rl_TP).
+Proof.
+  apply (C09_path_reverse_link [20; 21] [10; 11] rl_d rl_TP rl_TC).
+  - repeat constructor; simpl; intuition discriminate.
+  - repeat constructor; simpl; intuition discriminate.
+  - repeat constructor; simpl; intuition discriminate.
+  - repeat constructor; simpl; intuition discriminate.
+  - intros a b H. simpl in H. repeat (destruct H as [H|H]; [inversion H; subst; simpl; tauto|]). contradiction.
+  - intros cv H. simpl in H. repeat (destruct H as [H|H]; [subst; simpl; tauto|]). contradiction.
+  - by_entries.
+  - unfold union_genuine.
+    assert (E : union_table [dict_sem [20; 21] [10; 11] rl_d] [rl_TC] = [([7; 5], 3); ([2; 2], 1)])
+      by (vm_compute; reflexivity).
+    rewrite E. unfold rl_TP. teq_explicit.
+Qed.
+Example C09_path_reverse_link_value :
+  rekey (dict_sem [10; 11] [20; 21] (inv_dict rl_d)) rl_TP = [([2; 2], 1); ([5; 7], 2); ([5; 7], 1)].
+Proof. vm_compute. reflexivity. Qed.
+
+(* the model's fold over a path with a forward step (whose first child is empty: the code picks
+   child 1) and a reverse step with an injective dictionary *)
+Definition pd_s1 : step_desc :=
+  (false, [0; 1], [mkKid [] [] 0 false true; mkKid [10; 11] [(0, 10); (1, 11)] 0 false false], 1%nat).
+Definition pd_s2 : step_desc := (true, [20; 21], [mkKid [10; 11] [(20, 11); (21, 10)] 0 false false], 0%nat).
+Example C09_path_dictionary_nonvacuous :
+  fold_left path_dict_step [pd_s1; pd_s2] (Ok (id_dict [0; 1]))
+  = Ok (fold_left dict_compose [[(0, 10); (1, 11)]; inv_dict [(20, 11); (21, 10)]] (id_dict [0; 1])).
+Proof.
+  apply (C09_path_dictionary [pd_s1; pd_s2] [[(0, 10); (1, 11)]; inv_dict [(20, 11); (21, 10)]] (id_dict [0; 1])).
+  vm_compute. reflexivity.
+Qed.
+Example C09_path_dictionary_value :
+  fold_left path_dict_step [pd_s1; pd_s2] (Ok (id_dict [0; 1])) = Ok [(0, 21); (1, 20)] /\
+  (* a reverse step with a non-injective dictionary has no step_dict (the hypothesis fails) and the
+     model raises NotImplementedError *)
+  step_dict (true, [20; 21], [mkKid [10] [(20, 10); (21, 10)] 0 false false], 0%nat) = None /\
+  fold_left path_dict_step [(true, [20; 21], [mkKid [10] [(20, 10); (21, 10)] 0 false false], 0%nat)]
+            (Ok (id_dict [10])) = Err E_NOTIMPL.
+Proof. repeat split; vm_compute; reflexivity. Qed.
+
 Print Assumptions C09_param_maps_agree.
 Print Assumptions C09_union.
 Print Assumptions C09_product.
